@@ -57,6 +57,17 @@ class Manager(Employee):
     pass
 
 
+@dataclass(eq=False, repr=False)
+class Volunteer(Person):
+    pass
+
+
+@dataclass(eq=False, repr=False)
+class WorkingStudent(Employee, Volunteer):
+    """diamond: Person <- Employee, Volunteer <- WorkingStudent"""
+    pass
+
+
 @dataclass(eq=False)
 class Chief(Role[Person], Symbol):
     person: Person
@@ -123,6 +134,7 @@ Org.sub_org_of = SubOrgOf(Org, "sub_org_of")
 Org.part_of = PartOf(Org, "part_of")
 Org.has_part = HasPart(Org, "has_part")
 
-PERSON_CLASSES = {"Person": Person, "Employee": Employee, "Manager": Manager}
+PERSON_CLASSES = {"Person": Person, "Employee": Employee, "Manager": Manager, "Volunteer": Volunteer,
+                  "WorkingStudent": WorkingStudent}
 ORG_CLASSES = {"Org": Org, "Dept": Dept}
 ALL_CLASSES = {**PERSON_CLASSES, **ORG_CLASSES, "Chief": Chief}
